@@ -85,7 +85,7 @@ MiscCases ==
   {[kind |-> "fd_derivative_n", a |-> len, b |-> nn] : len \in 6..9, nn \in {1, 2, 6, 7, 9}} \cup
   {[kind |-> "fd_derivative_len", a |-> len, b |-> lf] : len \in 6..8, lf \in 5..9} \cup
   {[kind |-> "residue", a |-> po, b |-> ord] : po \in 1..3, ord \in 0..5} \cup
-  {[kind |-> "limit_path", a |-> p, b |-> v] : p \in 1..9, v \in 0..5}      \* b: the other options of the call (0 defaults, 1 dtheta = 0, 2 dtheta = pi/4 and ratio 2, 3 Residue, 4 generator alone with dtheta = 0, 5 Residue with dtheta = 0) - never decide; 1 radial, 2 spiral; unknown names: 3 "diagonal", 4 "x", 5 "straight", 6 "random", 7 "Radial", 8 "s", 9 "radial "
+  {[kind |-> "limit_path", a |-> p, b |-> v] : p \in 1..9, v \in 0..7}      \* b: the other options of the call (0 defaults, 1 dtheta = 0, 2 dtheta = pi/4 and ratio 2, 3 Residue, 4 generator alone with dtheta = 0, 5 Residue with dtheta = 0, 6 the limit at a regular point, 7 construction alone) - never decide; 1 radial, 2 spiral; unknown names: 3 "diagonal", 4 "x", 5 "straight", 6 "random", 7 "Radial", 8 "s", 9 "radial "
 MiscMisuse(k) ==
   CASE k.kind = "directionaldiff" -> k.a # k.b
     [] k.kind \in {"fd_weights_all", "fd_weights"} -> ~(k.b < k.a)
